@@ -11,6 +11,7 @@ sends each source's value once, rule tables and open flags == the model's.
 Part 2 (when `tlc` is on PATH): the complete state graph of tla/Router.tla is dumped by TLC and EVERY edge is replayed
 against the real hub (oracles/tlc_bridge.py); the Python reference model is checked against the same graph.
 """
+import functools
 import json
 import os
 from collections import Counter
@@ -363,9 +364,21 @@ def _pairs(c):
 class Adapter:
     """Drives the real hub with the actions of tla/Router.tla and abstracts it to the model's variables."""
 
+    LABELS = {"fwd": "SetForward", "del": "DelForward", "sink": "SetSink", "src": "SetSource", "recv": "Recv",
+              "send": "Send", "open": "Open", "close": "Close", "spin": "Spin"}
+
     def __init__(self, name):
-        self.cfg = name
-        from basic_robotics.interfaces.comms_core import Comms  # noqa: F401  (fail early if the library is missing)
+        # "dbl2" = the library's hub; "toy:<cfg>:<fault>" = oracles.router_model.ToyHub (self-tests)
+        if name.startswith("toy:"):
+            _, self.cfg, fault = name.split(":")
+            self.hub_cls = functools.partial(rm.ToyHub, fault or None)
+        else:
+            self.cfg = name
+            from basic_robotics.interfaces.comms_core import Comms
+            self.hub_cls = Comms
+
+    def label_of(self, act):
+        return self.LABELS.get(act[0])
 
     @staticmethod
     def split(state):
@@ -395,7 +408,7 @@ class Adapter:
 
     def execute(self, path, actions):
         import pickle
-        w = build_world(self.cfg)
+        w = build_world(self.cfg, hub_cls=self.hub_cls)
         for act in path:
             w.reset_logs()
             w.model.step(self.to_action(act))
